@@ -1611,7 +1611,7 @@ for mw, want, pre in [
     ([['6']], 0, []),
     ([['2'], ['3']], 2, []),                       # repeated flags: the larger number counts, not the sum
     ([['general'], ['2']], 0, []),
-    ([['-3']], 5, []),                             # negative numbers waive nothing
+    ([['-5']], 5, []),                             # negative numbers waive nothing (5 = the number of warnings)
     ([['general:-1', '5']], 3, []),
 ]:
     J('maxwarn-shapes', MW_IN, MW_OPTS, maxwarn=mw, pre=pre, need_warn=True, want_left=want, cost=0.9)
